@@ -1,11 +1,160 @@
 (** C03 — property theorems only; each closed by [exact] of a lemma proved elsewhere. *)
 From Coq Require Import ZArith List Bool.
-From VB Require Import Score.CInt Gen.KeystoneGen Score.KeystoneDefs Score.KeystoneProofs.
+From VB Require Import Score.CInt Gen.KeystoneGen Gen.ScoreParams Score.KeystoneDefs Score.KeystoneProofs
+  Score.CmpDefs Score.CmpProofs Score.CmpSym.
+Import ListNotations.
 Local Open Scope Z_scope.
 
-(** keystone_util.cpp as generated from the source = the mathematical keystone arithmetic *)
+(** *** the scoring core as coded = the protocol scorer (sign), for all views *)
+
+(** general form over extended heights: [Some (Fin h)] published at h, [Some Inf] present but
+    never published, [None] no keystone at this position *)
+Theorem C03_impl_sign_eq_spec_gen :
+  forall c la lb,
+    table_ok c -> fd_ok c -> profile_ok c la -> profile_ok c lb ->
+    budget_ok c (Nat.max (length la) (length lb)) ->
+    exists r, impl c (enc_view la) (enc_view lb) = Ok r /\ Z.sgn r = Z.sgn (spec c la lb).
+Proof. exact impl_sign_eq_spec_gen. Qed.
+Print Assumptions C03_impl_sign_eq_spec_gen.
+
+(** views with holes (getKeystone = nullptr for a keystone nobody published; the unit tests' mock) *)
+Theorem C03_impl_sign_eq_spec :
+  forall c la lb,
+    table_ok c -> fd_ok c -> heights_ok c la -> heights_ok c lb ->
+    budget_ok c (Nat.max (length la) (length lb)) ->
+    exists r, impl c (holes_view la) (holes_view lb) = Ok r /\
+              Z.sgn r = Z.sgn (spec c (pub_profile la) (pub_profile lb)).
+Proof. exact impl_sign_eq_spec. Qed.
+Print Assumptions C03_impl_sign_eq_spec.
+
+(** the real ReducedPublicationView (a context holding NO_ENDORSEMENT, never nullptr in range):
+    an unpublished keystone counts as published infinitely late *)
+Theorem C03_impl_real_sign_eq_spec :
+  forall c la lb,
+    table_ok c -> fd_ok c -> heights_ok c la -> heights_ok c lb ->
+    budget_ok c (Nat.max (length la) (length lb)) ->
+    exists r, impl c (real_view la) (real_view lb) = Ok r /\
+              Z.sgn r = Z.sgn (spec c (inf_profile la) (inf_profile lb)).
+Proof. exact impl_real_sign_eq_spec. Qed.
+Print Assumptions C03_impl_real_sign_eq_spec.
+
+(** FINDING: on the real view the verdict is not the "missing keystone" reading that the repo's
+    unit tests pin on their mock view (witness: two chains with holes of different length tie) *)
+Theorem C03_real_view_pub_reading_refuted :
+  exists c la lb r,
+    table_ok c /\ fd_ok c /\ heights_ok c la /\ heights_ok c lb /\
+    budget_ok c (Nat.max (length la) (length lb)) /\
+    impl c (real_view la) (real_view lb) = Ok r /\
+    Z.sgn r <> Z.sgn (spec c (pub_profile la) (pub_profile lb)).
+Proof. exact real_view_pub_reading_refuted. Qed.
+Print Assumptions C03_real_view_pub_reading_refuted.
+
+(** the table hypotheses hold for the defaults generated from /repo's current headers *)
+Theorem C03_default_params_ok :
+  table_ok alt_cfg /\ fd_ok alt_cfg /\ table_ok vbk_cfg /\ fd_ok vbk_cfg /\
+  budget_ok alt_cfg 1000000 /\ budget_ok vbk_cfg 1000000.
+Proof. exact default_params_ok. Qed.
+Print Assumptions C03_default_params_ok.
+
+(** *** antisymmetry (exact), zero without keystones *)
+
+Theorem C03_impl_antisym :
+  forall c la lb r, impl c la lb = Ok r -> r <> int32_min -> impl c lb la = Ok (- r).
+Proof. exact impl_antisym. Qed.
+Print Assumptions C03_impl_antisym.
+
+Theorem C03_impl_antisym_ub :
+  forall c la lb, impl c la lb = Ub -> impl c lb la = Ub \/ impl c lb la = Ok int32_min.
+Proof. exact impl_antisym_ub. Qed.
+Print Assumptions C03_impl_antisym_ub.
+
+Theorem C03_cmp_zero_no_keystone :
+  forall c fork tipA tipB ki la lb,
+    0 < ki -> fork <= tipA -> fork <= tipB ->
+    Z.of_nat (length la) = view_size fork tipA ki ->
+    Z.of_nat (length lb) = view_size fork tipB ki ->
+    m_crossed fork tipA ki = false -> m_crossed fork tipB ki = false ->
+    impl c la lb = Ok 0.
+Proof. exact cmp_zero_no_keystone. Qed.
+Print Assumptions C03_cmp_zero_no_keystone.
+
+(** *** outer comparePopScore short-cuts *)
+
+Theorem C03_cmp_never_favours_finalized_or_invalid :
+  forall i, outer_wf i ->
+    cand_valid i = false \/ apply_ok i = false \/ forks_below_final i ->
+    0 <= fst (outer_cmp i).
+Proof. exact cmp_never_favours_finalized_or_invalid. Qed.
+Print Assumptions C03_cmp_never_favours_finalized_or_invalid.
+
+Theorem C03_outer_negative_only_if_valid :
+  forall i, fst (outer_cmp i) < 0 ->
+    cand_valid i = true /\ apply_ok i = true /\
+    (cand_above_tip i = true \/ (core i < 0 /\ b_valid_alone i = true)).
+Proof. exact outer_negative_only_if_valid. Qed.
+Print Assumptions C03_outer_negative_only_if_valid.
+
+(** *** keystone_util.cpp, regenerated from the source on every run, = keystone arithmetic *)
+
 Theorem C03_gen_highestKeystoneAtOrBefore :
   forall h ki, height_ok h -> ki_ok ki ->
     highestKeystoneAtOrBefore h ki = Ok (ki * (h / ki)).
 Proof. exact gen_highestKeystoneAtOrBefore. Qed.
 Print Assumptions C03_gen_highestKeystoneAtOrBefore.
+
+Theorem C03_gen_blockHeightToKeystoneNumber :
+  forall h ki, height_ok h -> ki_ok ki -> blockHeightToKeystoneNumber h ki = Ok (h / ki).
+Proof. exact gen_blockHeightToKeystoneNumber. Qed.
+Print Assumptions C03_gen_blockHeightToKeystoneNumber.
+
+Theorem C03_gen_isKeystone :
+  forall h ki, height_ok h -> ki_ok ki -> isKeystone h ki = Ok (h mod ki =? 0).
+Proof. exact gen_isKeystone. Qed.
+Print Assumptions C03_gen_isKeystone.
+
+Theorem C03_gen_firstKeystoneAfter :
+  forall h ki, height_ok h -> ki_ok ki -> h + ki <= 2147483647 ->
+    firstKeystoneAfter h ki = Ok (ki * (h / ki + 1)).
+Proof. exact gen_firstKeystoneAfter. Qed.
+Print Assumptions C03_gen_firstKeystoneAfter.
+
+Theorem C03_gen_highestConnecting :
+  forall k ki, height_ok k -> ki_ok ki -> k + ki + 1 <= 2147483647 -> m_isKeystone k ki = true ->
+    highestBlockWhichConnectsKeystoneToPrevious k ki = Ok (k + ki + 1).
+Proof. exact gen_highestConnecting. Qed.
+Print Assumptions C03_gen_highestConnecting.
+
+Theorem C03_gen_isCrossedKeystoneBoundary :
+  forall b t ki, height_ok b -> height_ok t -> ki_ok ki ->
+    isCrossedKeystoneBoundary b t ki = Ok (b / ki <? t / ki).
+Proof. exact gen_isCrossedKeystoneBoundary. Qed.
+Print Assumptions C03_gen_isCrossedKeystoneBoundary.
+
+Theorem C03_gen_areOnSameKeystoneInterval :
+  forall a b ki, height_ok a -> height_ok b -> ki_ok ki ->
+    areOnSameKeystoneInterval a b ki = Ok (a / ki =? b / ki).
+Proof. exact gen_areOnSameKeystoneInterval. Qed.
+Print Assumptions C03_gen_areOnSameKeystoneInterval.
+
+Theorem C03_gen_getPreviousKeystoneHeight :
+  forall h ki n, height_ok h -> ki_ok ki -> 0 <= n -> (n + 1) * ki <= 2147483647 ->
+    getPreviousKeystoneHeight h ki n = Ok (m_previousKeystone h ki n).
+Proof. exact gen_getPreviousKeystoneHeight. Qed.
+Print Assumptions C03_gen_getPreviousKeystoneHeight.
+
+(** negative heights abort (the VBK_ASSERTs), they are not silently computed with *)
+Theorem C03_gen_negative_height_aborts :
+  forall h ki, h < 0 ->
+    highestKeystoneAtOrBefore h ki = Abort /\ isKeystone h ki = Abort /\ firstKeystoneAfter h ki = Abort.
+Proof.
+  exact (fun h ki H => conj (gen_highestKeystoneAtOrBefore_neg h ki H)
+                         (conj (gen_isKeystone_neg h ki H) (gen_firstKeystoneAfter_neg h ki H))).
+Qed.
+Print Assumptions C03_gen_negative_height_aborts.
+
+(** the view of a chain slice is empty exactly when the slice crosses no keystone boundary *)
+Theorem C03_view_empty_iff_not_crossed :
+  forall fork tip ki, 0 < ki -> fork <= tip ->
+    (view_size fork tip ki = 0 <-> m_crossed fork tip ki = false).
+Proof. exact view_empty_iff_not_crossed. Qed.
+Print Assumptions C03_view_empty_iff_not_crossed.
